@@ -44,3 +44,17 @@ pub open spec fn bv_add_ping(v: BuilderView, app: App) -> BuilderView {
 pub open spec fn bv_add_event(v: BuilderView, app: App, event: Event) -> BuilderView {
     bv_modify(v, app, |e: EntryView| EntryView { events: e.events.push(event), ..e })
 }
+pub proof fn lemma_bv_find(entries: Seq<EntryView>, id: Seq<char>)
+    ensures
+        bv_find(entries, id) is Some ==> 0 <= bv_find(entries, id)->Some_0 < entries.len() && entries[bv_find(entries, id)->Some_0].app.id@ == id
+            && (forall|j: int| 0 <= j < bv_find(entries, id)->Some_0 ==> (#[trigger] entries[j]).app.id@ != id),
+        bv_find(entries, id) is None ==> (forall|j: int| 0 <= j < entries.len() ==> (#[trigger] entries[j]).app.id@ != id),
+    decreases entries.len()
+{
+    if entries.len() > 0 && entries[0].app.id@ != id {
+        lemma_bv_find(entries.drop_first(), id);
+        assert forall|j: int| 0 <= j < entries.len() && (bv_find(entries, id) is None || j < bv_find(entries, id)->Some_0) implies (#[trigger] entries[j]).app.id@ != id by {
+            if j > 0 { assert(entries.drop_first()[j - 1] == entries[j]); }
+        }
+    }
+}
